@@ -136,6 +136,8 @@ def r2(ctx):
         z = []
         for sbb, te, fe, o in guards_on(nx, lambda o: o["k"] == "bin" and o["op"] == "Eq" and (op_const(o["b"]) or {}).get("v") == 0):
             z += fe
+        for sbb, te, fe, o in guards_on(nx, lambda o: o["k"] == "call" and re.search(r"CompletionQueue::is_empty$", o["t"]["f"])):
+            z += fe
         w_ = [bb for bb, t in nx.calls(re.compile(r"with_fs_and_io_uring$"))]
         okz = bool(z) and bool(w_) and all(nx.dominated_by_any(x, edges=z) for x in w_)
         dec = [s for bb, i, s in nx.all_stmts() if s["r"]["k"] == "bin" and s["r"]["op"] in ("SubWithOverflow", "Sub") and (op_const(s["r"]["b"]) or {}).get("v") == 1]
